@@ -50,4 +50,10 @@ PROPS = {
         'trusted_base': ['theorems in coq/props/C10.v about coq/theories/Term.v (proofs in TermFacts.v)'],
         'assumptions': COMMON_ASSUME + ['committee total weight < 2^64', 'one term per height (C13)'],
     },
+    'C09': {
+        'engines': [{'name': 'world', 'quick_args': ['-n', '60'], 'thorough_args': ['-n', '1200']}],
+        'corr_modules': ['Term'],
+        'trusted_base': ['theorems in coq/props/C09.v about coq/theories/Term.v (proofs in TermFacts.v)'],
+        'assumptions': COMMON_ASSUME + ['committee total weight < 2^64', 'the node is a member of the committee of the height (otherwise it has no term)', 'sort.Slice on at most 12 votes is stable (Go uses insertion sort below 12 elements); ties between equal proof views are irrelevant to the theorems'],
+    },
 }
